@@ -84,8 +84,8 @@ def run_snap(scn):
         write_csv(p_in, cols, rows)
         try:
             with quiet():
-                snap_command(p_in, p1, tps, force=True)
-                snap_command(p1, p2, tps, force=True)
+                _snap(scn, p_in, p1, tps)
+                _snap(scn, p1, p2, tps)
         except (Exception, SystemExit) as e:  # noqa: BLE001
             raise Violation("C20.snap.raises", {"exc": repr(e)[:200], "tps": tps, "extra_col": bool(scn.get("extra_col"))})
         c1, r1 = read_csv(p1)
@@ -158,6 +158,26 @@ def run_snap(scn):
     return out
 
 
+
+def _snap(scn, src, dst, tps):
+    """the function, or the command line entry point (argument parsing and dispatch are part of `tools snap`)"""
+    if scn.get("via_main"):
+        from eudoxia.__main__ import main
+        main(["tools", "snap", src, dst, str(tps), "-f"])
+    else:
+        from eudoxia.tools import snap_command
+        snap_command(src, dst, tps, force=True)
+
+
+def _jitter(scn, src, dst, delta, seed):
+    if scn.get("via_main"):
+        from eudoxia.__main__ import main
+        main(["tools", "jitter", src, dst, repr(float(delta)), "-f"] + ([] if seed is None else ["-s", str(seed)]))
+    else:
+        from eudoxia.tools import jitter_command
+        jitter_command(src, dst, delta, seed=seed, force=True)
+
+
 def run_jitter(scn):
     import_repo()
     from eudoxia.tools import jitter_command
@@ -171,11 +191,11 @@ def run_jitter(scn):
         write_csv(p_in, cols, rows)
         try:
             with quiet():
-                jitter_command(p_in, p1, delta, seed=seed, force=True)
-                jitter_command(p_in, p2, delta, seed=seed, force=True)
+                _jitter(scn, p_in, p1, delta, seed)
+                _jitter(scn, p_in, p2, delta, seed)
                 # another seed; for seed 0 the documented default (42), which a falsy test would confuse it with
                 other = 42 if seed == 0 else (42 if seed is None else seed) + 1 + scn.get("seed_step", 0)
-                jitter_command(p_in, p3, delta, seed=other, force=True)
+                _jitter(scn, p_in, p3, delta, other)
         except (Exception, SystemExit) as e:  # noqa: BLE001
             raise Violation("C20.jitter.raises", {"exc": repr(e)[:200], "delta": delta, "extra_col": bool(scn.get("extra_col"))})
         with open(p1, "rb") as f1, open(p2, "rb") as f2, open(p3, "rb") as f3:
@@ -302,7 +322,12 @@ def run_sample(scn):
         tools.sensitivity_command = fake_sensitivity
         try:
             with quiet():
-                tools.sensitivity_sample_command(pfile, odir, n, start_seed=start, jitter_seed=scn.get("jitter_seed"))
+                if scn.get("via_main"):
+                    from eudoxia.__main__ import main
+                    main(["tools", "sensitivity-sample", pfile, odir, str(n), "--start-seed", str(start)]
+                         + ([] if scn.get("jitter_seed") is None else ["--jitter-seed", str(scn["jitter_seed"])]))
+                else:
+                    tools.sensitivity_sample_command(pfile, odir, n, start_seed=start, jitter_seed=scn.get("jitter_seed"))
         finally:
             tools.multiprocessing, tools.sensitivity_command = saved[0], saved[1]
             sys.stdout, sys.stderr = saved[2], saved[3]
@@ -369,7 +394,8 @@ def gen_scn(r, family, tier):
         p.pop("random_seed", None)
         p["duration"] = min(p["duration"], 300.0)
         return {"kind": "sample", "params": p, "samples": r.randint(2, 5), "start_seed": r.choice([0, 1, 42, r.randint(0, 10 ** 6), r.randint(0, 10 ** 6), 2 ** 31 - 1, 2 ** 32 - 2, 2 ** 32 + r.randint(0, 50), 2 ** 63 - 1, 2 ** 64 + 7]),
-                "jitter_seed": r.choice([None, 7]), "order_seed": r.randint(0, 99), "rerun_same_dir": r.random() < 0.4}
+                "jitter_seed": r.choice([None, 7]), "order_seed": r.randint(0, 99), "rerun_same_dir": r.random() < 0.4,
+                "via_main": r.random() < 0.3}
     tps = r.choice([1, 2, 3, 5, 7, 10, 16, 30, 100, 100, 250, 1000, 10 ** 4, 10 ** 5])
     n = r.randint(1, 40)
     t = F(0)
@@ -396,7 +422,7 @@ def gen_scn(r, family, tier):
         arrivals.append(s)
         t = frac(s)
     scn = {"kind": family, "tps": tps, "arrivals": arrivals, "nops": [r.choice([1, 1, 2, 4]) for _ in arrivals],
-           "extra_col": r.random() < 0.4, "id_prefix": r.choice(["p", "pipe-", "q"])}
+           "extra_col": r.random() < 0.4, "id_prefix": r.choice(["p", "pipe-", "q"]), "via_main": r.random() < 0.3}
     if family == "jitter":
         if r.random() < 0.35:
             # jitter must sort whatever it is given: also feed it traces that are not in arrival order
